@@ -16,7 +16,8 @@ CONSTANTS L0, L1,     \* lengths of the input and of the decode target
           N0, N1,     \* at most N0 hits on the input, N1 on the decode target
           Ks,         \* depth limits explored
           Types, Kinds,   \* hit types ("" is the root's type) and value kinds on the input
-          Types1, Kinds1  \* ... and on the decode target
+          Types1, Kinds1, \* ... and on the decode target
+          Slack           \* 0 for in-bounds worlds
 
 Letters(base, n) == Tup([i \in 1..n |-> base + i - 1])
 Input  == Letters(97, L0)                       \* "abc"
@@ -26,16 +27,16 @@ FlipB(b) == IF b >= 97 /\ b <= 122 THEN b - 32 ELSE IF b >= 65 /\ b <= 90 THEN b
 Flip(s)  == Tup([i \in 1..Len(s) |-> FlipB(s[i])])
 
 Slices(s) == {SubSeq(s, a + 1, b) : a \in 0..Len(s), b \in 0..Len(s)} \ {<<>>}
-TextSet == {Input, Target, Leaf} \cup Slices(Input) \cup Slices(Target)
+TextSet == {Input, Target, Leaf, <<>>} \cup Slices(Input) \cup Slices(Target)
            \cup {Flip(x) : x \in Slices(Input) \cup Slices(Target)}
 \* text table: 1 = input, 2 = target, 3 = leaf, then the rest in a fixed order
 TextTable == <<Input, Target, Leaf>> \o SetToSeq(TextSet \ {Input, Target, Leaf})
 Id(x) == CHOOSE i \in 1..Len(TextTable) : TextTable[i] = x
 
-Spans(len) == {sp \in (0..len) \X (0..len) : sp[1] < sp[2]}
+Spans(len) == {sp \in (0..len) \X (0..(len + Slack)) : sp[1] < sp[2]}      \* Slack > 0: hits may end past the text (precondition broken on purpose)
 LeafKid == [s |-> 0, e |-> 1, ty |-> "k", obf |-> "", val |-> 3, kids |-> <<>>]
 ValOf(t, sp, kind) ==
-  LET sl == SubSeq(TextTable[t], sp[1] + 1, sp[2]) IN
+  LET sl == PySlice(TextTable[t], sp[1], sp[2]) IN
   CASE kind = "slice"  -> Id(sl)
     [] kind = "flip"   -> Id(Flip(sl))
     [] kind = "target" -> 2
